@@ -1653,3 +1653,37 @@ def install(prog):
         k = str(callee).rsplit('::', 1)[1]
         return {'MIN': -_s.float_info.max, 'MAX': _s.float_info.max, 'EPSILON': _s.float_info.epsilon, 'INFINITY': float('inf'), 'NEG_INFINITY': float('-inf'), 'NAN': float('nan'),
                 'MIN_POSITIVE': _s.float_info.min}[k]
+
+    # ------------------------------------------------------------------ thread_local! and raw slice pointers
+    @B('LocalKey::new', 'std::thread::LocalKey::new')
+    def b_localkey_new(ctx, a, callee):
+        f = a[0]
+        name = f.name if type(f) is FnPtr else repr(f)
+        return Agg('LocalKey', None, (name,))
+
+    @B('LocalKey::with', 'std::thread::LocalKey::with', 'LocalKey::try_with', 'std::thread::LocalKey::try_with')
+    def b_localkey_with(ctx, a, callee):
+        """one value per key and per path (a path is one thread of execution); initialised from the `const { .. }` initialiser"""
+        key = D(a[0]).fields[0]
+        tls = getattr(ctx, 'tls', None)
+        if tls is None:
+            tls = ctx.tls = {}
+        if key not in tls:
+            base = re.sub(r'::\{constant#\d+\}.*$', '', key)
+            from .interp import eval_const_expr
+            try:
+                init = eval_const_expr(ctx, None, base + '::__RUST_STD_INTERNAL_INIT')
+            except Unsupported:
+                raise Unsupported('thread_local %s: lazily initialised keys are not modelled' % key)
+            tls[key] = init
+        r = ctx.call_value(a[1], [tls[key]])
+        return ok(r) if callee.endswith('try_with') else r
+
+    @B('core::slice::as_ptr', 'slice::as_ptr', 'Vec::as_ptr', 'core::slice::as_mut_ptr', 'core::str::as_ptr', 'str::as_ptr')
+    def b_slice_as_ptr(ctx, a, callee):
+        # the only thing a harnessed program may do with it is compare addresses: the identity of the (immutable) backing
+        # tuple stands for the address of the first element
+        v = D(a[0])
+        if type(v) is VecV:
+            return id(v.items) & 0x7fffffffffff
+        return id(v) & 0x7fffffffffff
